@@ -240,7 +240,7 @@ def _make_fevals(kind, N1, rng, mode, bounds, layout=None):
             nterm = rng.randint(1, 3)
             for t in range(nterm):
                 nd = rng.randint(1, min(2, N1))
-                inds = sorted(rng.sample(list(range(N1)), nd))
+                inds = rng.sample(list(range(N1)), nd)  # in any order: entry k pairs a feature column with axis k of the table
                 dims = []
                 for i in inds:
                     lo_, hi_ = bounds[i]
@@ -256,7 +256,7 @@ def _make_fevals(kind, N1, rng, mode, bounds, layout=None):
                     # an equal copy, or equal up to 1e-12 / 1e-7 / 1e-5 relative
                     nd0 = len(ind_sets[0])
                     if nd0 <= N1:
-                        inds = sorted(rng.sample(list(range(N1)), nd0))
+                        inds = rng.sample(list(range(N1)), nd0)
                         gd = grids[0]
                         eps = rng.choice([None, 0.0, 1e-12, 1e-7, 1e-5])
                         if eps is None:
